@@ -30,5 +30,6 @@ pub mod vecleft {
         vec_impl_binop_commutative!{c, impl Add<$V> for T { add, simd_add } where T = Sym}
         vec_impl_binop_commutative!{c, impl Mul<$V> for T { mul, simd_mul } where T = Sym}
     )+ } }
-    left!(Vec2 Vec3 Vec4 Vec8 Vec16 Vec32 Vec64 Extent2 Extent3 Rgb Rgba Uv Uvw);
+    left!(Vec2 Vec3 Vec4 Extent2 Extent3 Rgb Rgba Uv Uvw);
+    #[cfg(feature = "wide")] left!(Vec8 Vec16 Vec32 Vec64);
 }
